@@ -81,8 +81,16 @@ def gggetdt : P String := do
     { state := { n := p.length, psd := fn p.toArray, bounds := fn b.toArray, size := fun _ => 0.0 }, index := d }
   pure (fout (Grain.getDt c r (fn g.toArray) st))
 
+/-- pbm.nucidx  bounds(n+1) nucRadius → nucIndex (the code's argmax − 1 with wrap and guard), nucIdx (class scan) -/
+def nucidx : P String := do
+  let b ← flts; let rad ← flt
+  let n := b.length - 1
+  let ba := b.toArray
+  pure s!"{nucIndex n (fn ba) rad} {nucIdx n (fn ba) rad}"
+
 def handle (verb : String) : Option (P String) :=
   match verb with
+  | "pbm.nucidx" => some nucidx
   | "pbm.correctnf" => some correctnf
   | "gg.post" => some ggpost
   | "gg.getdt" => some gggetdt
